@@ -197,3 +197,43 @@ Section gen_facts.
     destruct (build f ctx LV_DEREF s t st) as [[q st1]| | |]; try discriminate. inversion H; subst. eauto.
   Qed.
 End gen_facts.
+
+(* ---------- the zero-value guard decision (builder/struct.go shouldCheckAgainstZero, regenerated) ---------- *)
+Section zero_table.
+  Variable e : env.
+  Lemma zero_check_not_update conf s t call :
+    cc_UpdateTarget conf = false -> x_shouldCheckAgainstZero e conf s t false call = false.
+  Proof. intros H. unfold x_shouldCheckAgainstZero. rewrite H. reflexivity. Qed.
+  Lemma zero_check_struct conf s t upd call :
+    cc_UpdateTarget conf = true -> f_Struct e s = true -> cc_IgnoreStructZeroValueField conf = true ->
+    x_shouldCheckAgainstZero e conf s t upd call = true.
+  Proof. intros H1 H2 H3. unfold x_shouldCheckAgainstZero. rewrite H1, H2, H3. reflexivity. Qed.
+  Lemma zero_check_basic conf s t upd call :
+    cc_UpdateTarget conf = true -> f_Struct e s = false -> f_Basic e s = true -> cc_IgnoreBasicZeroValueField conf = true ->
+    x_shouldCheckAgainstZero e conf s t upd call = true.
+  Proof. intros H1 H2 H3 H4. unfold x_shouldCheckAgainstZero. rewrite H1, H2, H3, H4. cbn. reflexivity. Qed.
+  Lemma zero_check_map_chan_func_iface conf s t upd call :
+    cc_UpdateTarget conf = true -> f_Struct e s = false -> f_Basic e s = false -> cc_IgnoreNillableZeroValueField conf = true ->
+    (f_Chan e s || f_Map e s || f_Func e s || f_Signature e s || f_Interface e s) = true ->
+    x_shouldCheckAgainstZero e conf s t upd call = true.
+  Proof. intros H1 H2 H3 H4 H5. unfold x_shouldCheckAgainstZero. rewrite H1, H2, H3, H4, H5. cbn. reflexivity. Qed.
+  (* pointers and slices get no guard of their own unless assigned as is (call / skipCopySameType): the inline
+     conversion has its own nil guard, which leaves the target untouched (EvalFacts.eval_ptr_nil, eval_slice_nil) *)
+  Lemma zero_check_pointer_slice_inline conf s t upd :
+    f_Struct e s = false -> f_Basic e s = false ->
+    (f_Chan e s || f_Map e s || f_Func e s || f_Signature e s || f_Interface e s) = false ->
+    cc_SkipCopySameType conf = false ->
+    x_shouldCheckAgainstZero e conf s t upd false = false.
+  Proof.
+    intros H2 H3 H5 H6. unfold x_shouldCheckAgainstZero. rewrite H2, H3, H5, H6. cbn.
+    destruct (negb (cc_UpdateTarget conf) && negb upd), (cc_IgnoreNillableZeroValueField conf); reflexivity.
+  Qed.
+  (* nothing is guarded unless its category is selected *)
+  Lemma zero_check_nothing_selected conf s t upd call :
+    cc_IgnoreStructZeroValueField conf = false -> cc_IgnoreBasicZeroValueField conf = false -> cc_IgnoreNillableZeroValueField conf = false ->
+    x_shouldCheckAgainstZero e conf s t upd call = false.
+  Proof.
+    intros H1 H2 H3. unfold x_shouldCheckAgainstZero. rewrite H1, H2, H3.
+    destruct (negb (cc_UpdateTarget conf) && negb upd), (f_Struct e s), (f_Basic e s); reflexivity.
+  Qed.
+End zero_table.
